@@ -69,7 +69,47 @@ func (o *Oblig) smtText(withModel bool) string {
 		}
 	}
 	var body strings.Builder
-	for _, it := range vc.items[:o.NItems] {
+	// slicing: an axiom that only defines a fresh constant (Item.Owner) is printed
+	// only if that constant is reachable from the goal through the formulas that
+	// are printed. Dropping an assumption is sound for a validity query.
+	items := vc.items[:o.NItems]
+	rel := map[string]bool{}
+	symbolsIn(o.Goal, rel)
+	defBody := map[string]string{}
+	for _, it := range items {
+		switch {
+		case it.Decl && strings.HasPrefix(it.Text, "(define-fun "):
+			rest := it.Text[len("(define-fun "):]
+			if i := strings.IndexByte(rest, ' '); i > 0 {
+				defBody[rest[:i]] = rest[i:]
+			}
+		case !it.Decl && it.Owner == "":
+			symbolsIn(it.Text, rel)
+		}
+	}
+	keep := make([]bool, len(items))
+	expanded := map[string]bool{}
+	for changed := true; changed; {
+		changed = false
+		for s := range rel {
+			if b, ok := defBody[s]; ok && !expanded[s] {
+				expanded[s] = true
+				symbolsIn(b, rel)
+				changed = true
+			}
+		}
+		for i, it := range items {
+			if it.Owner != "" && !keep[i] && rel[it.Owner] {
+				keep[i] = true
+				symbolsIn(it.Text, rel)
+				changed = true
+			}
+		}
+	}
+	for i, it := range items {
+		if it.Owner != "" && !keep[i] {
+			continue
+		}
 		if it.Decl {
 			body.WriteString(it.Text)
 		} else {
@@ -119,7 +159,15 @@ func runSolver(parent context.Context, sp solverSpec, file string, timeoutS int)
 	cmd.Run()
 	secs = time.Since(start).Seconds()
 	out = buf.String()
-	first := strings.TrimSpace(strings.SplitN(out, "\n", 2)[0])
+	first := ""
+	for _, ln := range strings.Split(out, "\n") {
+		ln = strings.TrimSpace(ln)
+		if ln == "" || strings.HasPrefix(ln, "WARNING") {
+			continue // z3 prints pattern warnings before the verdict
+		}
+		first = ln
+		break
+	}
 	switch first {
 	case "unsat", "sat", "unknown":
 		status = first
@@ -141,6 +189,10 @@ func discharge(o *Oblig, outDir string, timeoutS int, which []string, all bool) 
 	os.MkdirAll(outDir, 0o755)
 	os.WriteFile(file, []byte(o.smtText(false)), 0o644)
 	v := Verdict{File: file, All: map[string]string{}}
+	if o.Cover && timeoutS > 5 {
+		// reachability queries: only a quick `unsat` (vacuity) matters; sat / unknown / timeout are all fine
+		timeoutS = 5
+	}
 	type res struct {
 		name, status, out string
 		secs              float64
@@ -194,12 +246,26 @@ func discharge(o *Oblig, outDir string, timeoutS int, which []string, all bool) 
 				pcancel()
 				return v
 			}
-		} else if best.status == "unknown" && r.status != "unknown" {
+		} else if best.name == "" || statusRank(r.status) > statusRank(best.status) {
 			best = r
 		}
 	}
 	v.Status, v.Solver, v.Seconds = best.status, best.name, best.secs
 	return v
+}
+
+// statusRank orders inconclusive verdicts: a timeout says more than unknown, and
+// unknown more than a back end that rejected the input.
+func statusRank(s string) int {
+	switch s {
+	case "unsat", "sat":
+		return 3
+	case "timeout":
+		return 2
+	case "unknown":
+		return 1
+	}
+	return 0
 }
 
 func firstLines(s string, n int) string {
@@ -222,7 +288,10 @@ func modelFor(o *Oblig, outDir string, timeoutS int, solver string) (map[string]
 		if st != "sat" {
 			continue
 		}
-		rest := out[strings.Index(out, "\n")+1:]
+		rest := out
+		if i := strings.Index(out, "sat\n"); i >= 0 {
+			rest = out[i+4:]
+		}
 		sx, err := parseSexps(rest)
 		if err != nil || len(sx) == 0 {
 			return nil, out
